@@ -856,6 +856,82 @@ def range_rule(ctx):
                "rejected by Dictionary::read" % (bound, bad))
 
 
+def lanes_rule(ctx):
+    """LANES (C05, C07): the eight feature ids of a U31x8 are written in lane order 0..7 in both
+    build configurations (a constant index `self.0[k]` in the portable build, the immediate of
+    `_mm256_extract_epi32::<k>` in the AVX2 build) - the decoder reads them back in that order,
+    and an image written by one build is read by the other."""
+    import re as _re
+    for cfg in ("A", "B"):
+        crate = ctx.facts(cfg).lib
+        E = Effects(crate)
+        ps = [p for p, f in crate.fns.items() if f.body and f.j.get("impl_trait") == "bincode::Encode"
+              and str(f.j.get("impl_self_ty", "")).endswith("::U31x8")]
+        if len(ps) != 1:
+            raise EngineError("LANES: Encode for U31x8 not found (%s)" % cfg)
+        fa = E.fa(ps[0])
+        tuples = []
+        for b in sorted(fa.live_blocks()):
+            for i, st in enumerate(fa.blocks[b]["stmts"]):
+                if "lhs" in st and st["rv"]["k"] == "agg" and st["rv"].get("agg") == "tuple" \
+                        and len(st["rv"]["ops"]) == 8:
+                    tuples.append((b, i, st["rv"]["ops"]))
+        if not tuples:
+            # the array itself handed to the encoder: order is the array's
+            whole = [t for b0, t in fa.calls() if (callee_of(t) or {}).get("name") == "encode" and t["args"]
+                     and E.ap_operand(fa, t["args"][0]) is not None
+                     and E.ap_operand(fa, t["args"][0]).root == ("arg", 1)
+                     and tuple(E.ap_operand(fa, t["args"][0]).proj) == ("0",)]
+            if len(whole) == 1 and cfg == "A":
+                ctx.ob("LANES", "%s|U31x8::encode|lane-order" % cfg, True, fa.loc(0),
+                       "(%s) the id array is encoded as a whole, in its own order" % cfg)
+                continue
+        if len(tuples) != 1:
+            raise EngineError("LANES: expected one 8-tuple in U31x8::encode (%s), found %d" % (cfg, len(tuples)))
+        b, i, ops = tuples[0]
+        got = []
+        for o in ops:
+            lane = None
+            pl = op_place(o)
+            for _ in range(12):
+                if pl is None:
+                    break
+                ci = [e["ci"] for e in pl["p"] if e != "*" and isinstance(e, dict) and "ci" in e]
+                if ci:
+                    lane = ci[0] if not isinstance(ci[0], dict) else ci[0].get("offset")
+                    break
+                ix = [e["i"] for e in pl["p"] if e != "*" and isinstance(e, dict) and "i" in e]
+                if ix:
+                    di = fa.single_def(ix[0])
+                    if di is not None and di[2] == "assign" and di[3]["k"] == "use":
+                        k0 = op_const(di[3]["op"])
+                        lane = k0.get("int") if k0 else None
+                    break
+                d = fa.single_def(pl["l"])
+                if d is None:
+                    break
+                if d[2] == "call":
+                    c = callee_of(d[3]) or {}
+                    if c.get("name") == "_mm256_extract_epi32":
+                        m = [_re.match(r"const (\d+)", x) for x in (c.get("args") or [])]
+                        m = [int(x.group(1)) for x in m if x]
+                        lane = m[0] if m else None
+                    break
+                rv = d[3]
+                if rv["k"] in ("use", "cast"):
+                    pl = op_place(rv["op"])
+                elif rv["k"] == "ref":
+                    pl = rv["place"]
+                else:
+                    break
+            got.append(lane)
+        ok = got == list(range(8))
+        ctx.ob("LANES", "%s|U31x8::encode|lane-order" % cfg, ok, fa.loc(b, i),
+               "(%s) the eight ids of a U31x8 are written in lane order 0..7" % cfg if ok else
+               "(%s) U31x8::encode writes lanes %s: the decoder (and the other build) reads them back "
+               "in order 0..7, so template positions are permuted after a write/read" % (cfg, got))
+
+
 def run_c05_derived(ctx):
     derived_caches(ctx)
 
